@@ -13,6 +13,8 @@
 #include "trace.hpp"
 
 #include <algorithm>
+#include <csetjmp>
+#include <exception>
 #include <limits>
 #include <memory>
 #include <random>
@@ -89,13 +91,36 @@ struct Cell
   }
 };
 
+// An abort is a std::runtime_error (RLBOX_USE_EXCEPTIONS) - or std::terminate where the failed
+// check sits under a noexcept member (unwrapping an index that the application type cannot
+// represent, for instance): the terminate handler jumps back here. Leaving a terminate handler
+// by a jump is outside the language rules; with g++ the stack is still intact at that point
+// (the search phase found the noexcept frame, nothing was unwound), which is all this driver needs.
+static sigjmp_buf g_term_jmp;
+static bool g_term_armed = false;
+static int g_terminates = 0;
+static void on_terminate()
+{
+  if (g_term_armed) {
+    g_term_armed = false;
+    g_terminates++;
+    siglongjmp(g_term_jmp, 1);
+  }
+  std::_Exit(6);
+}
 template<typename F>
 static const char* guarded(F&& f)
 {
+  if (sigsetjmp(g_term_jmp, 1) != 0) {
+    return "abort";
+  }
+  g_term_armed = true;
   try {
     f();
+    g_term_armed = false;
     return "ok";
   } catch (const std::runtime_error&) {
+    g_term_armed = false;
     return "abort";
   }
 }
@@ -133,8 +158,29 @@ static std::vector<std::vector<W>> scripts(W lo_valid, W hi_valid, W other_valid
   r.push_back({ lo_valid, other_valid });
   r.push_back({ other_valid, hi_valid, lo_valid });
   r.push_back({ other_valid });
+  // a guest representation wider than the application type: the cell can hold values the
+  // application type cannot represent, among them values that alias a valid one after truncation
+  const W gmin = (W)std::numeric_limits<G>::min(), gmax = (W)std::numeric_limits<G>::max();
+  const W span = (W)1 << (8 * sizeof(N));
+  if (gmax > (W)std::numeric_limits<N>::max()) {
+    r.push_back({ span + other_valid });
+    r.push_back({ other_valid, span + other_valid });
+    r.push_back({ span + other_valid, other_valid });
+    r.push_back({ gmax });
+  }
+  if (gmin < (W)std::numeric_limits<N>::min()) {
+    r.push_back({ -span + other_valid });
+    r.push_back({ other_valid, -span + other_valid });
+    r.push_back({ gmin });
+  }
   return r;
 }
+
+template<typename T>
+struct TypeTag
+{
+  using type = T;
+};
 
 // ---------------------------------------------------------------- C17: index read from sandbox memory
 template<typename Arr, typename N>
@@ -183,6 +229,40 @@ static void c17_tests()
   idx_case<decltype(*p16), N>(*p16, "V", "[]", 16, 1);                                                                  \
   idx_case<decltype(*p2d), N>(*p2d, "V", "[]", 3, gi * 4);
   IDX(int32_t) IDX(uint32_t) IDX(int16_t) IDX(uint8_t) IDX(int8_t) IDX(i64) IDX(u64) IDX(long)
+  // an array object that does not lie wholly inside the sandbox (a sandbox-supplied pointer to
+  // array near the end of the region) is never indexed: dereferencing the pointer is refused;
+  // the array that ends exactly at the last byte is indexed as usual
+  {
+    auto straddle = [&](const char* what, auto tag, long at, long len, long es) {
+      using A = typename decltype(tag)::type;
+      auto p = sb->UNSAFE_accept_pointer(reinterpret_cast<A*>(BASE + at));
+      for (long i = 0; i < len; i++) {
+        W eoff = -1;
+        const char* r = guarded([&] {
+          auto& el = (*p)[i];
+          eoff = (W)(reinterpret_cast<uintptr_t>(std::addressof(el)) - (BASE + at));
+        });
+        tr::Ev e("fetch");
+        bool fits = at + len * es <= SIZE;
+        e.str("kind", fits ? "index" : "straddle").str("where", "V").str("form", what).str("nty", "plain").num("len", len).num("es", es);
+        put_script(e, { (W)i });
+        e.str("out", r).num("eoff", std::strcmp(r, "ok") == 0 ? (long long)eoff : -1).num("reads", 0).num("at", at);
+        out.put(e);
+      }
+    };
+    using I4 = int[4];
+    using C16 = char[16];
+    using LL3 = long long[3];
+    const long gll = sizeof(GuestRep<long long>);
+    straddle("(*p)[i] int[4]", TypeTag<I4>{}, SIZE - 4 * gi, 4, gi);
+    straddle("(*p)[i] int[4]", TypeTag<I4>{}, SIZE - 4 * gi + 1, 4, gi);
+    straddle("(*p)[i] int[4]", TypeTag<I4>{}, SIZE - 2 * gi, 4, gi);
+    straddle("(*p)[i] int[4]", TypeTag<I4>{}, SIZE - 1, 4, gi);
+    straddle("(*p)[i] char[16]", TypeTag<C16>{}, SIZE - 16, 16, 1);
+    straddle("(*p)[i] char[16]", TypeTag<C16>{}, SIZE - 9, 16, 1);
+    straddle("(*p)[i] long long[3]", TypeTag<LL3>{}, SIZE - 3 * gll, 3, gll);
+    straddle("(*p)[i] long long[3]", TypeTag<LL3>{}, SIZE - 2 * gll, 3, gll);
+  }
   {
     auto& row = app2d[1];
     idx_case<decltype(row), int32_t>(row, "T", "row[]", 4, sizeof(int));
@@ -637,6 +717,7 @@ int main(int argc, char** argv)
   if (!out.open(argv[2])) {
     return 2;
   }
+  std::set_terminate(on_terminate);
   RS sandbox;
   sandbox.create_sandbox();
   sb = &sandbox;
